@@ -394,11 +394,6 @@ class RDGridSpace :
         """
         Sets the boundary conditons of the system space.
         """
-        self._boundary_conditions = {
-            "x" : "reflecting", 
-            "y" : "reflecting", 
-            "z" : "reflecting"}
-        
         if not isdict(boundary_conditions) :
             raise TypeError("boundary_conditions must be a dict.")
 
@@ -407,6 +402,13 @@ class RDGridSpace :
                 raise ValueError("axis must be \"x\", \"y\" or \"z\".")
             if boundary_conditions[axis] not in ["reflecting", "periodical"] :
                 raise ValueError("conditon must be \"reflecting\" or \"periodical\".")
+
+        # nothing is stored before the whole input has been validated
+        self._boundary_conditions = {
+            "x" : "reflecting", 
+            "y" : "reflecting", 
+            "z" : "reflecting"}
+        for axis in list(boundary_conditions) :
             self._boundary_conditions[axis] = boundary_conditions[axis]
         
 def rdgridspace_from_dict(d, parent_units_system = UnitsSystem(), base_path=None) : 
